@@ -93,6 +93,12 @@ func (t *jwksRT) set(S []ksEntry) {
 	t.mu.Unlock()
 }
 
+func (t *jwksRT) hitCount() int {
+	t.mu.Lock()
+	defer t.mu.Unlock()
+	return t.hits
+}
+
 func (t *jwksRT) RoundTrip(req *http.Request) (*http.Response, error) {
 	t.mu.Lock()
 	b := t.body
